@@ -53,7 +53,7 @@ theorem C15_refuted_getter :
 next element is admitted at once although 1 task is running and the limit is 0 -/
 def C15_witness_shrink : History :=
   [.mkpool none none none,
-   .on 0 [] (.map 0 [⟨false⟩, ⟨false⟩, ⟨false⟩] 2 none Pool.gatedSpec),
+   .on 0 [] (.map 0 [{ bad := false }, { bad := false }, { bad := false }] 2 none Pool.gatedSpec),
    .run 0 [], .on 0 [] (.setSize 0), .run 0 [], .run 0 [], .on 0 [] (.gate 0 .ok), .run 0 [], .run 0 [], .run 0 []]
 
 theorem C15_refuted_shrink :
